@@ -164,9 +164,13 @@ messages into its buffer — and returns the first, or reports `WouldBlock` when
 nothing.  Only what matters to the adapter's loop is kept: *messages* that have fully arrived on the
 socket (`sock`) and messages already inside the codec (`buf`). -/
 
+/-- a complete WebSocket message as `read()` returns it: `some data` = `Message::Binary(data)`, which
+is handed to the user; `none` = a Ping, Pong or Text message, which the adapter skips (`_ => continue`) -/
+abbrev WsMsg := Option Bytes
+
 structure WsConn where
-  sock : List Bytes := []       -- complete messages readable from the socket, oldest first
-  buf : List Bytes := []        -- complete messages already buffered inside the codec
+  sock : List WsMsg := []       -- complete messages readable from the socket, oldest first
+  buf : List WsMsg := []        -- complete messages already buffered inside the codec
 deriving DecidableEq, Repr
 
 /-- answer of the environment to one socket access made by `web_socket.read()` -/
@@ -188,9 +192,12 @@ def wsReceive : WsConn → List WsAns → Nat → WsRecv
   | c, sched, fuel + 1 =>
     match c.buf with
     | m :: ms =>
-      -- a buffered message is returned without touching the socket
+      -- a buffered message is returned without touching the socket; Binary goes to the user, anything
+      -- else is skipped and the loop goes on
       let r := wsReceive { c with buf := ms } sched fuel
-      { r with outs := m :: r.outs }
+      match m with
+      | some data => { r with outs := data :: r.outs }
+      | none => r
     | [] =>
       match sched with
       | [] => { conn := c, outs := [], status := none }
@@ -202,7 +209,9 @@ def wsReceive : WsConn → List WsAns → Nat → WsRecv
         | [] => { conn := c, outs := [], status := none }     -- illegal answer: nothing to read
         | m :: ms =>
           let r := wsReceive { sock := c.sock.drop k, buf := ms } as fuel
-          { r with outs := m :: r.outs }
+          match m with
+          | some data => { r with outs := data :: r.outs }
+          | none => r
 
 def LegalWs : WsConn → List WsAns → Prop
   | _, [] => True
@@ -225,7 +234,7 @@ open Mio Mio.Generated
 
 /-- WebSocket connection over several poll events: `arrived` complete messages since the last one -/
 structure WsPollEv where
-  arrived : List Bytes
+  arrived : List WsMsg
   sched : List WsAns
 
 structure WsSt where
